@@ -78,7 +78,11 @@ pub fn classify_panic(msg: &str) -> String {
         "novalid".into()
     } else if m.contains("overflow") {
         "panic:overflow".into()
-    } else if m.contains("K-mer lengths do not match") || m.contains("Strand use inconsistent") {
+    } else if m.contains("K-mer lengths do not match")
+        || m.contains("Strand use inconsistent")
+        // a later merge input of the other integer width does not load as the first one's type
+        || m.contains("Failed to load input file")
+    {
         "refused".into()
     } else if m.contains("Invalid number of samples to remove") || m.contains("Could not find sample") {
         "refused".into()
